@@ -76,22 +76,25 @@ struct plane_img {
     double& at(int x, int y, int c) { return v[((size_t)c * h + y) * w + x]; }
     double at(int x, int y, int c) const { return v[((size_t)c * h + y) * w + x]; }
 };
+// plane index = COLOUR index (position in the colour space), whatever the channel order of the view
 template <class View> plane_img to_plane(View const& v) {
     const int NC = gil::num_channels<View>::value;
+    const std::vector<int> ph = cu::phys_of_colour<typename View::value_type>();
     plane_img p((int)v.width(), (int)v.height(), NC);
     for (int y = 0; y < p.h; ++y)
         for (int x = 0; x < p.w; ++x)
-            for (int c = 0; c < NC; ++c) p.at(x, y, c) = cu::num(v(x, y)[c]);
+            for (int c = 0; c < NC; ++c) p.at(x, y, c) = cu::num(v(x, y)[ph[(size_t)c]]);
     return p;
 }
 template <class Image> void from_plane(plane_img const& p, Image& img) {
     typedef typename Image::value_type P;
     typedef typename gil::channel_type<P>::type ch_t;
+    const std::vector<int> ph = cu::phys_of_colour<P>();
     img.recreate(p.w, p.h);
     auto v = gil::view(img);
     for (int y = 0; y < p.h; ++y)
         for (int x = 0; x < p.w; ++x)
-            for (int c = 0; c < p.nc; ++c) v(x, y)[c] = MT<ch_t>::make(p.at(x, y, c));
+            for (int c = 0; c < p.nc; ++c) v(x, y)[ph[(size_t)c]] = MT<ch_t>::make(p.at(x, y, c));
 }
 
 // structuring element: n x n, centred, entries 0/1, row-major se[r*n+c]
@@ -162,8 +165,9 @@ template <class SV, class DV, class K> void call_gradient(SV const&, DV const&, 
 enum { MOP_DILATE, MOP_ERODE, MOP_OPENING, MOP_CLOSING, MOP_GRADIENT };
 static const char* mopname(int op) { static const char* n[] = {"dilate", "erode", "opening", "closing", "gradient"}; return n[op]; }
 
-template <class Image> void run_morphology(const char* pxname) {
-    typedef typename Image::value_type P;
+// Image = source image type; P = destination pixel type (same colour space, possibly another channel order)
+template <class Image, class P = typename Image::value_type> void run_morphology(const char* pxname) {
+    const std::vector<int> dp = cu::phys_of_colour<P>();
     typedef typename gil::channel_type<P>::type ch_t;
     const int NC = gil::num_channels<P>::value;
     const double HI = MT<ch_t>::hi(), LO = MT<ch_t>::lo();
@@ -196,7 +200,7 @@ template <class Image> void run_morphology(const char* pxname) {
                     Image src, src2;
                     from_plane(s, src);
                     from_plane(s2, src2);
-                    std::vector<unsigned char> snap = cu::snapshot(src);
+                    std::vector<double> snap = cu::values_of(gil::const_view(src));
                     std::string ctx = vh::cat(pxname, " ", w, "x", h, " SE ", n, "x", n, " kind ", kind, " content ", cmname(mode), ": ");
 
                     auto exec = [&](int op, int iters, Image const& in, plane_img const& want, const char* oracle) -> plane_img {
@@ -218,7 +222,7 @@ template <class Image> void run_morphology(const char* pxname) {
                                     got.at(x, y, c) = out.at(x + 2, y + 2, c);
                                     double wv = want.at(x, y, c);
                                     // a wanted value outside the channel range (gradient of a signed image) is not representable: not judged
-                                    ar.set(x, y, c, (wv < LO || wv > HI) ? got.at(x, y, c) : wv, cu::K_A);
+                                    ar.set(x, y, dp[(size_t)c], (wv < LO || wv > HI) ? got.at(x, y, c) : wv, cu::K_A);     // c is a colour index
                                 }
                         cu::cmp_result res = ar.compare(0.0);
                         if (res.outside_bad) vh::viol(vh::cat("outside-dst.", mopname(op), ".", pxname), ctx + res.first_outside);
@@ -262,14 +266,14 @@ template <class Image> void run_morphology(const char* pxname) {
                     exec(MOP_ERODE, 0, src, s, "iterations-0");
                     exec(MOP_DILATE, 2, src, model_morph(mD, se, true), "iterations-2");
                     exec(MOP_ERODE, 2, src, model_morph(mE, se, false), "iterations-2");
-                    if (!cu::same_bytes(src, snap)) vh::viol(vh::cat("src-modified.morph.", pxname), ctx + "source bytes changed");
+                    if (cu::values_of(gil::const_view(src)) != snap) vh::viol(vh::cat("src-modified.morph.", pxname), ctx + "source values changed");
                     vh::distinct(1);
                 }
         }
 }
 
-template <class Image> void run_median(const char* pxname) {
-    typedef typename Image::value_type P;
+template <class Image, class P = typename Image::value_type> void run_median(const char* pxname) {
+    const std::vector<int> dp = cu::phys_of_colour<P>();
     typedef typename gil::channel_type<P>::type ch_t;
     const int NC = gil::num_channels<P>::value;
     const int maxdim = vh::thorough() ? 12 : 7;
@@ -290,7 +294,7 @@ template <class Image> void run_median(const char* pxname) {
                     vh::obs(vh::cat("median.content.", pxname, ".", cmname(mode)));
                     Image src;
                     from_plane(s, src);
-                    std::vector<unsigned char> snap = cu::snapshot(src);
+                    std::vector<double> snap = cu::values_of(gil::const_view(src));
                     cu::arena<P> ar(w, h, r, 2, 2);
                     gil::median_filter(gil::subimage_view(gil::const_view(src), 0, 0, w, h), ar.dst(), (std::size_t)k);
                     const int R = k / 2;
@@ -306,14 +310,14 @@ template <class Image> void run_median(const char* pxname) {
                                     }
                                 std::sort(win.begin(), win.end());
                                 bool edge = x - R < 0 || x + R >= w || y - R < 0 || y + R >= h;
-                                ar.set(x, y, c, win[win.size() / 2], edge ? cu::K_B : cu::K_A);
+                                ar.set(x, y, dp[(size_t)c], win[win.size() / 2], edge ? cu::K_B : cu::K_A);     // c is a colour index
                             }
                     cu::cmp_result res = ar.compare(0.0);
                     std::string ctx = vh::cat("median_filter ", pxname, " ", w, "x", h, " k=", k, " content ", cmname(mode), ": ");
                     if (res.outside_bad) vh::viol(vh::cat("outside-dst.median.", pxname), ctx + res.first_outside);
                     if (res.bad[cu::K_A]) vh::viol(vh::cat("median-interior.", pxname, ".k", k), ctx + res.first[cu::K_A]);
                     if (res.bad[cu::K_B]) vh::viol(vh::cat("median-edge.", pxname, ".k", k), ctx + res.first[cu::K_B]);
-                    if (!cu::same_bytes(src, snap)) vh::viol(vh::cat("src-modified.median.", pxname), ctx + "source bytes changed");
+                    if (cu::values_of(gil::const_view(src)) != snap) vh::viol(vh::cat("src-modified.median.", pxname), ctx + "source values changed");
                     vh::evals(1);
                     vh::distinct(1);
                 }
@@ -336,6 +340,17 @@ int main(int argc, char** argv) {
 #elif C16_MPART == 2
     run_morphology<gil::gray8s_image_t>("gray8s");
     run_morphology<gil::gray32f_image_t>("gray32f");
+#elif C16_MPART == 4   // differing channel orders, compared per colour
+    run_morphology<gil::rgb8_image_t, gil::bgr8_pixel_t>("rgb8-to-bgr8");
+    run_morphology<gil::bgr8_image_t, gil::rgb8_pixel_t>("bgr8-to-rgb8");
+#elif C16_MPART == 5
+    run_morphology<gil::rgba8_image_t, gil::abgr8_pixel_t>("rgba8-to-abgr8");
+    run_morphology<gil::rgb8_planar_image_t, gil::bgr8_pixel_t>("rgb8planar-to-bgr8");
+#elif C16_MPART == 6
+    run_median<gil::rgb8_image_t, gil::bgr8_pixel_t>("rgb8-to-bgr8");
+    run_median<gil::bgr8_image_t, gil::rgb8_pixel_t>("bgr8-to-rgb8");
+    run_median<gil::rgba8_image_t, gil::abgr8_pixel_t>("rgba8-to-abgr8");
+    run_median<gil::rgb8_planar_image_t, gil::bgr8_pixel_t>("rgb8planar-to-bgr8");
 #else
     run_median<gil::gray8s_image_t>("gray8s");
     run_median<gil::gray16s_image_t>("gray16s");
